@@ -174,6 +174,20 @@ def make_cases(rng, tier):
             continue      # joining a join identity is elided by design: not an ill-formed request
         if kind in ("chain_cols", "chain_engine", "join_pred_missing", "join_engine") and sorted_unsliced_sql(res[1]):
             expected = expected + ["OrderLoss"]
+        if kind in ("unsupported_calc", "unsupported_sel", "unsupported_sort") and sorted_unsliced_sql(res[1]):
+            # a second, independent ill-formedness: the same request with a SUPPORTED expression would be refused too,
+            # because it would bury the unsliced sort; decided by running that control request
+            def plain(e):
+                if isinstance(e, tuple) and e and e[0] == "supp":
+                    return ("supp", True, True, plain(e[3]))     # the same function, supported by every engine
+                if isinstance(e, tuple):
+                    return tuple(plain(x) for x in e)
+                if isinstance(e, list):
+                    return [plain(x) for x in e]
+                return e
+            _wc, _rc, resc = mp.run_build(plain(q))
+            if resc[0] == "err" and resc[1] == "OrderLoss":
+                expected = expected + ["OrderLoss"]
         w2, rel2, res2 = mp.run_build(q)
         after = fingerprint(rel)
         if after != before:
